@@ -69,6 +69,13 @@ func cliFamily(prop, name string, weight int, gen func(*RNG) *CliPlan, online fu
 }
 
 func init() {
+	register(&Family{Prop: "C12", Name: "c12", Weight: 1,
+		Gen: func(r *RNG) any { return GenC12(r) },
+		Run: func(plan any, tape *Tape, ss uint64) *RunResult {
+			return RunCliLate(plan.(*CliPlan), tape, ss, "C12", nil, nil, c12Late, func(w *CliWorld, r *RunResult) { r.Nontrivial = c12Nontrivial(w) })
+		},
+		Decode: func(b json.RawMessage) (any, error) { p := &CliPlan{}; return p, json.Unmarshal(b, p) },
+	})
 	register(cliFamily("C07", "c07", 1, GenC07, c07Online, c07Final,
 		func(w *CliWorld, r *RunResult) { r.Nontrivial = c07Nontrivial(w) }))
 	register(cliFamily("C02", "c02-split", 1, GenC02Split, nil, func(w *CliWorld) *Violation { return c02Final(w, "C02") },
